@@ -107,10 +107,10 @@ package fox
 //@ -- the deferred function: aborts; when a panic is in flight it aborts first and re-raises the same value
 //@ func (*Router).Updates$1 props C04,C15
 //@   requires txnOK(txn)
-//@   modifies txn.rootTxn, held[&txn.fox.mu], lockOps[&txn.fox.mu]
+//@   modifies panicking, txn.rootTxn, held[&txn.fox.mu], lockOps[&txn.fox.mu]
 //@   panics-when panicking != nil
-//@   assert-at panic#1 : reraised: panic_value == panicking && (txn.write ==> txn.rootTxn == nil) && (old(txn.write && txn.rootTxn != nil) ==> !held[&txn.fox.mu]) && pubCount[&txn.fox.tree] == old(pubCount[&txn.fox.tree])
-//@   ensures must-reraise: panicking == nil
+//@   assert-at panic#1 : reraised: panic_value == old(panicking) && (txn.write ==> txn.rootTxn == nil) && (old(txn.write && txn.rootTxn != nil) ==> !held[&txn.fox.mu]) && pubCount[&txn.fox.tree] == old(pubCount[&txn.fox.tree])
+//@   ensures must-reraise: old(panicking) == nil
 //@   ensures settled: txn.write ==> txn.rootTxn == nil
 //@   ensures nothing-published: pubCount[&txn.fox.tree] == old(pubCount[&txn.fox.tree]) && published[&txn.fox.tree] == old(published[&txn.fox.tree])
 //@   ensures unlocked: old(txn.write && txn.rootTxn != nil) ==> !held[&txn.fox.mu]
@@ -118,10 +118,10 @@ package fox
 
 //@ func (*Router).View$1 props C04,C06,C15
 //@   requires txnOK(txn) && !txn.write
-//@   modifies txn.rootTxn
+//@   modifies panicking, txn.rootTxn
 //@   panics-when panicking != nil
-//@   assert-at panic#1 : reraised: panic_value == panicking && held[&txn.fox.mu] == old(held[&txn.fox.mu]) && lockOps[&txn.fox.mu] == old(lockOps[&txn.fox.mu])
-//@   ensures must-reraise: panicking == nil
+//@   assert-at panic#1 : reraised: panic_value == old(panicking) && held[&txn.fox.mu] == old(held[&txn.fox.mu]) && lockOps[&txn.fox.mu] == old(lockOps[&txn.fox.mu])
+//@   ensures must-reraise: old(panicking) == nil
 //@   ensures nolock: held[&txn.fox.mu] == old(held[&txn.fox.mu]) && lockOps[&txn.fox.mu] == old(lockOps[&txn.fox.mu]) && pubCount[&txn.fox.tree] == old(pubCount[&txn.fox.tree])
 
 //@ func (*Router).Updates props C04,C15
